@@ -1,6 +1,8 @@
 #include "prelude.hpp"
 #define REACH __CPROVER_assert(0, "REACH: harness end is reachable (expected to fail)")
 extern "C" {
+uint8_t g_quot[32];
+uint8_t g_max[32];
 unsigned nondet_unsigned();
 void* nondet_ptr();
 // hash: the block hash as stored (big-endian display order: byte 31 is the least significant); limit: powLimit as a Blob<32> in number order
@@ -12,4 +14,15 @@ int w_pow_btc(const uint8_t* hash, uint32_t bits, const uint8_t* limit) {
   return checkProofOfWork(b, p);
 }
 void h_pow_btc() { w_pow_btc((const uint8_t*)nondet_ptr(), nondet_unsigned(), (const uint8_t*)nondet_ptr()); REACH; }
+
+// hash: 24-byte VBK block hash as stored; mindiff: minimum difficulty in number order; quot: the (abstract) quotient max / target
+int w_pow_vbk(const uint8_t* hash, uint32_t bits, const uint8_t* mindiff, const uint8_t* quot) {
+  VbkBlock b;
+  VbkChainParams p;
+  for (int i = 0; i < 24; i++) b.hash_.data_[i] = hash[i];
+  for (int i = 0; i < 32; i++) { p.mindiff_.data_[i] = mindiff[i]; g_quot[i] = quot[i]; g_max[i] = 0xff; }
+  b.bits_ = (int32_t)bits;
+  return checkProofOfWork(b, p);
+}
+void h_pow_vbk() { w_pow_vbk((const uint8_t*)nondet_ptr(), nondet_unsigned(), (const uint8_t*)nondet_ptr(), (const uint8_t*)nondet_ptr()); REACH; }
 }
